@@ -49,10 +49,10 @@ package server
 // reported as an error, never a partial result); without it the stored bytes are validated before
 // they are returned.
 //@ func (s *grpcServer) GetActionResult(ctx context.Context, req *pb.GetActionResultRequest) (*pb.ActionResult, error)
-//@   serves C06 C11 C15
+//@   serves C06 C11 C14 C15
 //@   requires s != nil && s.cache != nil && s.accessLogger != nil && s.errorLogger != nil && ctx != nil
+//@   assume protobuf-repeated-nonnil: forall a Int, k Int :: (offset(ptr(a, "remoteexecution.ActionResult").OutputFiles) <= k && k < offset(ptr(a, "remoteexecution.ActionResult").OutputFiles) + len(ptr(a, "remoteexecution.ActionResult").OutputFiles)) ==> elems(ptr(a, "remoteexecution.ActionResult").OutputFiles)[k] != 0
 //@   noframe
-//@   nosafety
 //@   ensures[C06] oneof: (result1 == nil) <==> (result0 != nil)
 //@   call Cache.GetValidatedActionResult#* asserts[C06,C15] lookup: s.depsCheck && arg2 == acKey(s, old(req.ActionDigest.Hash), req.InstanceName)
 //@   call Cache.Get#* asserts[C15] rawlookup: !s.depsCheck && arg2 == 0 && arg3 == acKey(s, old(req.ActionDigest.Hash), req.InstanceName) && arg4 == 0 - 1 && arg5 == 0
